@@ -326,3 +326,60 @@ def lock12(cfg):
     res.count('root loads under a root section', n)
     res.floor('root loads under a root section', 6)
     return res
+
+
+def lock8b(cfg):
+    """LOCK-8b: a saved stack entry is re-entered through the version it was saved with"""
+    res = RuleResult('LOCK-8b', 'the step functions of the OLC iterator re-enter the node of a saved stack entry through `rehydrate_read_lock(entry.version)` followed by `check()`: the entry\'s child index was computed at that version, and only a section that validates against THAT version shows the index is still right. A fresh `try_read_lock()` on the node validates nothing about the saved index - a writer that shifted the children in place (no grow / shrink, so the node is not obsolete) makes the scan skip a key or deliver one twice')
+    n = 0
+    for f in cfg.functions:
+        if not f.blocks or not ('olc_db<' in f.cls and f.cls.endswith('::iterator')) or f.short not in ('try_next', 'try_prior'):
+            continue
+        inits = {}
+        for b, i, e in f.elements():
+            if e.get('k') == 'decl':
+                for v in e['vars']:
+                    if 'init' in v:
+                        inits[v['did']] = v['init']
+        # locals bound to top()
+        tops = set()
+        for d, init in inits.items():
+            hit = []
+            f.walk(init, lambda y: hit.append(1) if (y.get('k') == 'call' and y.get('name') == 'top') else None)
+            x = f.strip_casts(init)
+            if hit and isinstance(x, dict) and x.get('k') == 'call' and x.get('name') == 'top':
+                tops.add(d)
+        if not tops:
+            res.incompl('LOCK-8b: %s does not bind the top stack entry to a local' % f.short)
+            continue
+
+        def from_entry(o, depth=0):
+            """does the operand derive from a field of the saved entry (through locals)"""
+            hit = []
+
+            def v(y):
+                if y.get('k') == 'ref' and y.get('did') in tops:
+                    hit.append(1)
+                elif y.get('k') == 'ref' and y.get('vk') == 'local' and y.get('did') in inits and depth < 3:
+                    if from_entry(inits[y['did']], depth + 1):
+                        hit.append(1)
+            f.walk(o, v)
+            return bool(hit)
+        for b, i, e in f.elements():
+            if e.get('k') != 'call' or e.get('name') not in ('try_read_lock', 'rehydrate_read_lock') or (e.get('cls') or '') != OL or e.get('obj') is None:
+                continue
+            ob = f.strip_casts(e['obj'])
+            if not (isinstance(ob, dict) and ob.get('k') == 'call' and ob.get('name') == 'node_ptr_lock' and ob.get('args') and from_entry(ob['args'][0])):
+                continue
+            n += 1
+            res.functions.add(f.sig)
+            ok = e['name'] == 'rehydrate_read_lock' and bool(e.get('args')) and from_entry(e['args'][0])
+            if ok:
+                a = f.strip_casts(e['args'][0])
+                ok = isinstance(a, dict) and a.get('k') == 'member' and a.get('name') == 'version'
+            res.ob(ok, {'rule': 'LOCK-8b', 'function': sh(f.sig)[:100], 'site': fileline(e.get('loc')), 'opened_by': e['name'], 'verdict': 'discharged' if ok else 'VIOLATION'})
+            if not ok:
+                res.find(f, e.get('loc'), '%s re-enters the node of the saved stack entry by %s instead of rehydrate_read_lock(entry.version): the child index saved in the entry is then used without any evidence that the node is unchanged since the entry was pushed - after an in-place insert / remove in that node the scan skips the next key or delivers the current one again' % (f.short, e['name'] + '()' if e['name'] == 'try_read_lock' else 'a rehydration from something else than the entry\'s version'), key='LOCK-8b:%s' % f.short, config=cfg.name)
+    res.count('re-entries of a saved stack entry', n)
+    res.floor('re-entries of a saved stack entry', 4)
+    return res
